@@ -167,7 +167,7 @@ pub fn worker_main(a: WorkerArgs) -> i32 {
             let _ = o.flush();
         }
         since_flush += 1;
-        if since_flush >= 64 && last_flush.elapsed() > Duration::from_millis(700) {
+        if since_flush >= 1 && last_flush.elapsed() > Duration::from_millis(500) {
             flush(&mut rep, &mut sig_file, r);
             last_flush = Instant::now();
             since_flush = 0;
@@ -393,6 +393,8 @@ pub fn run_check(a: &CheckArgs) -> CheckResult {
     let mut open = w as usize;
     let mut stop_written = false;
     let mut unexplored: u64 = 0;
+    let mut aborts: u32 = 0;
+    let mut other_deaths: u32 = 0;
     while open > 0 {
         match rx.recv_timeout(Duration::from_millis(250)) {
             Ok(Msg::Line(wid, line)) => {
@@ -463,7 +465,15 @@ pub fn run_check(a: &CheckArgs) -> CheckResult {
                                     refused.clone().unwrap_or_default()
                                 ),
                             };
-                            res.violations.push(replay_json(&sc, &v, false, 0));
+                            aborts += 1;
+                            if res.violations.len() < 32 {
+                                res.violations.push(replay_json(&sc, &v, false, 0));
+                            }
+                        }
+                        // a tree that aborts over and over is not worth the whole budget
+                        if aborts >= 8 && !stop_written {
+                            let _ = std::fs::write(format!("{}/STOP", workdir), b"stop");
+                            stop_written = true;
                         }
                     } else if sig.is_none() {
                         // exited by itself without finishing: a defect of the harness
@@ -474,11 +484,26 @@ pub fn run_check(a: &CheckArgs) -> CheckResult {
                             run
                         ));
                     } else {
-                        eprintln!(
-                            "inconclusive_abort: property={} seed={} run={} signal={:?}",
-                            a.prop, seed, run, sig
-                        );
-                        res.inconclusive.push(note.with("class", J::s("inconclusive_abort")));
+                        if other_deaths < 48 {
+                            eprintln!(
+                                "inconclusive_abort: property={} seed={} run={} signal={:?}",
+                                a.prop, seed, run, sig
+                            );
+                        }
+                        if res.inconclusive.len() < 200 {
+                            res.inconclusive.push(note.with("class", J::s("inconclusive_abort")));
+                        }
+                        other_deaths += 1;
+                        // a tree on which workers keep dying (another property's defect)
+                        // is not worth the whole budget: stop starting runs
+                        if other_deaths >= 48 && !stop_written {
+                            let _ = std::fs::write(format!("{}/STOP", workdir), b"stop");
+                            stop_written = true;
+                            eprintln!(
+                                "giving up after {} worker deaths that are not attributable to {}",
+                                other_deaths, a.prop
+                            );
+                        }
                     }
                     let _ = std::fs::write(format!("{}/w{}.abort", workdir, wid), b"");
                 }
